@@ -219,6 +219,37 @@ func runC34(c *Ctx) {
 		}
 		c.Ob("normalise", "extractHostname#root-domain-comparison", call.Pos(), ok, "the value matched against the configured root domains is case-normalised on every path (host names are case-insensitive; abc.ROOT and abc.root must resolve alike): "+det)
 	}
+	// a hand-written membership loop: `for _, root := range RootDomains { if root == x {...} }`
+	type loopTest struct {
+		cmp   *ast.BinaryExpr
+		other ast.Expr
+		rs    *ast.RangeStmt
+	}
+	var loopTests []loopTest
+	for _, nd := range shallowNodes(eh.Body) {
+		rs, ok := nd.(*ast.RangeStmt)
+		if !ok || rs.Value == nil || !(eh.FieldKey(rs.X) == "gateway.GatewayConfig.RootDomains" || strings.HasSuffix(eh.Prov(rs.X), ".RootDomains")) {
+			continue
+		}
+		rv := eh.varOf(rs.Value)
+		for _, m := range shallowNodes(rs.Body) {
+			be, ok := m.(*ast.BinaryExpr)
+			if !ok || be.Op != token.EQL && be.Op != token.NEQ {
+				continue
+			}
+			switch {
+			case rv != nil && eh.varOf(be.X) == rv:
+				loopTests = append(loopTests, loopTest{be, be.Y, rs})
+			case rv != nil && eh.varOf(be.Y) == rv:
+				loopTests = append(loopTests, loopTest{be, be.X, rs})
+			}
+		}
+	}
+	for _, lt := range loopTests {
+		nsite++
+		_, low := loweredAt(eh, lt.cmp)
+		c.Ob("normalise", "extractHostname#root-domain-comparison", lt.cmp.Pos(), low(lt.other), "the value matched against the configured root domains is case-normalised on every path (host names are case-insensitive; abc.ROOT and abc.root must resolve alike): "+eh.Str(lt.cmp))
+	}
 	c.Floor("root-domain comparison sites", nsite, 1)
 	// returned name lower-cased
 	named := ""
@@ -366,6 +397,33 @@ func runC34(c *Ctx) {
 			}
 		}
 		nHit, nMiss, bad := 0, 0, false
+		// the loop form of the membership test: a site under `root == x` is a hit; a success
+		// site after the loop, under no such fact, is the miss
+		for _, st := range sites {
+			if len(loopTests) == 0 {
+				break
+			}
+			g := eh.enclosing(st.at)
+			fs := eh.FactsAt(st.at)
+			hit := false
+			for _, lt := range loopTests {
+				if fs.Cmp(func(e, tag ast.Expr, truth bool, fa *Fact) bool {
+					return tag == nil && ast.Unparen(e) == ast.Expr(lt.cmp) && truth == (lt.cmp.Op == token.EQL)
+				}) {
+					hit = true
+					nHit++
+					if !paired(g.Prov(lt.other), g.Prov(stripLower(g, st.val))) {
+						bad = true
+					}
+				}
+			}
+			if !hit && st.at.Pos() > loopTests[0].rs.End() {
+				nMiss++
+				if !wholeHost(g, st.val, 0) {
+					bad = true
+				}
+			}
+		}
 		for _, st := range sites {
 			g := eh.enclosing(st.at)
 			fs := eh.FactsAt(st.at)
@@ -384,7 +442,7 @@ func runC34(c *Ctx) {
 				}
 			}
 		}
-		okLabel = len(tests) == 1 && nHit >= 1 && nMiss >= 1 && !bad
+		okLabel = len(tests)+len(loopTests) == 1 && nHit >= 1 && nMiss >= 1 && !bad
 	}
 	c.Ob("refusals", "extractHostname#label-of-matched-split", eh.Decl.Pos(), okLabel, "for a root-domain host the name is the first part of the split whose remainder matched a root domain")
 }
@@ -580,7 +638,7 @@ func runC35(c *Ctx) {
 				at  ast.Node
 				val ast.Expr
 			}
-			var vsites []vsite
+			var vsites, bareDefs []vsite
 			if lc, ok := ast.Unparen(call.Args[1]).(*ast.CallExpr); ok && rw.litOfCallee(lc) != nil {
 				lit := rw.litOfCallee(lc)
 				h := rw.enclosing(lit).Closure(lit)
@@ -589,10 +647,74 @@ func runC35(c *Ctx) {
 						vsites = append(vsites, vsite{h, r, r.Results[0]})
 					}
 				}
+			} else if lv := rw.varOf(call.Args[1]); lv != nil && len(rw.defsOf(lv)) > 1 {
+				// the value is prepared in a local (a default, overridden under a test): each
+				// definition is a value site; a definition without the port may reach the
+				// Set only along the edge on which the port is known to be 443
+				for _, d := range rw.defNodes(lv) {
+					var rhs ast.Expr
+					switch x := d.(type) {
+					case *ast.AssignStmt:
+						for i, l := range x.Lhs {
+							if rw.varOf(l) == lv && i < len(x.Rhs) {
+								rhs = x.Rhs[i]
+							}
+						}
+					case *ast.ValueSpec:
+						for i, nm := range x.Names {
+							if rw.Info.Defs[nm] == types.Object(lv) && i < len(x.Values) {
+								rhs = x.Values[i]
+							}
+						}
+					}
+					if rhs == nil {
+						continue
+					}
+					if cl, ok := ast.Unparen(rhs).(*ast.CallExpr); ok && rw.IsCall(cl, "fmt.Sprintf") {
+						vsites = append(vsites, vsite{rw, d, rhs})
+					} else {
+						bareDefs = append(bareDefs, vsite{rw, d, rhs})
+					}
+				}
 			} else {
 				vsites = append(vsites, vsite{rw, call, call.Args[1]})
 			}
 			isHost := func(g *Fn, e ast.Expr) bool {
+				// the outbound URL host: directly, or a local whose last unconditional
+				// definition before this point is that host
+				e = ast.Unparen(e)
+				if v := g.varOf(e); v != nil && len(g.defsOf(v)) > 1 && g == rw {
+					var last ast.Expr
+					for _, st := range rw.Body.List {
+						if st.Pos() >= e.Pos() {
+							break
+						}
+						if as, ok := st.(*ast.AssignStmt); ok && len(as.Lhs) == len(as.Rhs) {
+							for i, l := range as.Lhs {
+								if rw.varOf(l) == v {
+									last = as.Rhs[i]
+								}
+							}
+						} else {
+							// a conditional redefinition after the last plain one: undecided
+							ast.Inspect(st, func(n ast.Node) bool {
+								if as, ok := n.(*ast.AssignStmt); ok {
+									for _, l := range as.Lhs {
+										if rw.varOf(l) == v {
+											last = nil
+										}
+									}
+								}
+								return true
+							})
+						}
+					}
+					if last == nil {
+						return false
+					}
+					pv := g.Prov(last)
+					return strings.HasSuffix(pv, ".Out.URL.Host") || strings.HasSuffix(pv, ".Out.URL.Hostname()")
+				}
 				pv := g.Prov(e)
 				return strings.HasSuffix(pv, ".Out.URL.Host") || strings.HasSuffix(pv, ".Out.URL.Hostname()")
 			}
@@ -614,6 +736,24 @@ func runC35(c *Ctx) {
 				})
 			}
 			okVal := len(vsites) > 0
+			for _, bd := range bareDefs {
+				nset++
+				okVal = okVal && isHost(bd.g, bd.val)
+				lv := rw.varOf(call.Args[1])
+				bad, decided := rw.CutFromDefs(call, lv, func(p string) bool { return !strings.HasPrefix(p, "call:fmt.Sprintf") }, func(at atom) bool {
+					be, ok := ast.Unparen(at.e).(*ast.BinaryExpr)
+					if !ok || at.tag != nil || be.Op != token.EQL && be.Op != token.NEQ {
+						return false
+					}
+					x, y := be.X, be.Y
+					if v, _ := rw.ConstVal(x); v == "443" {
+						x, y = y, x
+					}
+					v, _ := rw.ConstVal(y)
+					return v == "443" && strings.HasSuffix(rw.Prov(x), ".GatewayPort") && (be.Op == token.EQL) == at.truth
+				})
+				okVal = okVal && decided && bad == nil
+			}
 			for _, vs := range vsites {
 				nset++
 				if cl, ok := ast.Unparen(vs.val).(*ast.CallExpr); ok && vs.g.IsCall(cl, "fmt.Sprintf") {
@@ -788,10 +928,14 @@ func runC36(c *Ctx) {
 		ss := g.CallsTo(false, "spec/tun.SendStatusProto")
 		cl := methodCalls(g, false, "Close")
 		pp := g.CallsTo(false, "spec/tun.Pipe")
+		// err known non-nil (truth) / nil (!truth), whichever way the test is written
 		errNonNil := func(n ast.Node, truth bool) bool {
 			return g.FactsAt(n).Cmp(func(e, tag ast.Expr, t bool, fa *Fact) bool {
-				be, ok := e.(*ast.BinaryExpr)
-				return ok && !fa.Inherited && t == truth && be.Op == token.NEQ && isNilIdent(g.Info, be.Y)
+				be, ok := ast.Unparen(e).(*ast.BinaryExpr)
+				if !ok || fa.Inherited || tag != nil || !isNilIdent(g.Info, be.Y) || be.Op != token.NEQ && be.Op != token.EQL {
+					return false
+				}
+				return ((be.Op == token.NEQ) == t) == truth
 			})
 		}
 		if len(ss) == 1 && len(cl) == 1 && len(pp) == 1 {
@@ -825,10 +969,70 @@ func runC36(c *Ctx) {
 		if se, ok := as.Lhs[0].(*ast.SelectorExpr); !ok || se.Sel.Name != "Status" {
 			return true
 		}
-		for _, vs := range valueSites(sp, as, as.Rhs[0]) {
+		sites := valueSites(sp, as, as.Rhs[0])
+		// a local prepared with a default and overridden under a test: every definition
+		// is a site; a definition without a deciding fact of its own is judged by what
+		// holds on every path from it to the use
+		var lv *types.Var
+		if v := sp.varOf(as.Rhs[0]); v != nil && len(sp.defsOf(v)) > 1 {
+			lv = v
+			sites = nil
+			for _, d := range sp.defNodes(v) {
+				var rhs ast.Expr
+				switch x := d.(type) {
+				case *ast.AssignStmt:
+					for i, l := range x.Lhs {
+						if sp.varOf(l) == v && i < len(x.Rhs) {
+							rhs = x.Rhs[i]
+						}
+					}
+				case *ast.ValueSpec:
+					for i, nm := range x.Names {
+						if sp.Info.Defs[nm] == types.Object(v) && i < len(x.Values) {
+							rhs = x.Values[i]
+						}
+					}
+				}
+				if rhs != nil {
+					sites = append(sites, valueSite{sp, d, rhs})
+				}
+			}
+		}
+		for _, vs := range sites {
 			nmap++
 			code := constName(vs.g, vs.val)
 			fs := sp.FactsAt(vs.at)
+			if lv != nil {
+				// what is known where the value is used, given this definition reached it
+				useFacts := sp.FactsAt(as)
+				defProv := sp.Prov(vs.val)
+				noDirectFalseOnPath := func() bool {
+					bad, decided := sp.CutFromDefs(as, lv, func(p string) bool { return p == defProv }, func(at atom) bool {
+						call, ok := ast.Unparen(at.e).(*ast.CallExpr)
+						return ok && at.tag == nil && !at.truth && sp.IsCall(call, "spec/tun.IsNoDirect")
+					})
+					return decided && bad == nil
+				}
+				errKnown := useFacts.Cmp(func(e, tag ast.Expr, truth bool, fa *Fact) bool {
+					be, ok := ast.Unparen(e).(*ast.BinaryExpr)
+					if !ok || tag != nil || !isNilIdent(sp.Info, be.Y) || sp.Prov(be.X) != "param#1" {
+						return false
+					}
+					return be.Op == token.NEQ && truth || be.Op == token.EQL && !truth
+				})
+				switch code {
+				case "TunnelStatusCode_NO_DIRECT":
+					okND := fs.Has(func(fa *Fact) bool {
+						return fa.Kind == FTrue && sp.IsCall(fa.Call, "spec/tun.IsNoDirect") && sp.Prov(fa.Call.Args[0]) == "param#1"
+					})
+					c.Ob("status-proto", "SendStatusProto#NO_DIRECT-iff-no-direct", vs.at.Pos(), okND && errKnown, "NO_DIRECT is reported exactly for no-direct errors")
+				case "TunnelStatusCode_UNKNOWN_ERROR":
+					c.Ob("status-proto", "SendStatusProto#UNKNOWN_ERROR-otherwise", vs.at.Pos(), noDirectFalseOnPath() && errKnown, "every other error is reported as UNKNOWN_ERROR")
+				default:
+					c.Ob("status-proto", "SendStatusProto#status:"+code, vs.at.Pos(), false, "unexpected status assignment")
+				}
+				continue
+			}
 			isErr := func(g *Fn, e ast.Expr) bool { return g.enclosing(e).Prov(e) == "param#1" }
 			nd := func(truth bool) bool {
 				return fs.Has(func(fa *Fact) bool {
@@ -979,7 +1183,7 @@ func runC37(c *Ctx) {
 			}
 		}
 		if es, ok := st.(*ast.ExprStmt); ok {
-			if use, ok := es.X.(*ast.CallExpr); ok && len(use.Args) == 1 {
+			if use, ok := es.X.(*ast.CallExpr); ok && len(use.Args) >= 1 {
 				if se, ok := use.Fun.(*ast.SelectorExpr); ok && se.Sel.Name == "Use" && g.Prov(se.X) == routerProv {
 					if ba, ok := use.Args[0].(*ast.CallExpr); ok && g.IsCall(ba, "github.com/go-chi/chi/v5/middleware.BasicAuth") && len(ba.Args) == 2 {
 						if cl := compositeOf(ba.Args[1]); cl != nil && len(cl.Elts) == 1 {
@@ -1011,7 +1215,7 @@ func runC37(c *Ctx) {
 		se := call.Fun.(*ast.SelectorExpr)
 		c.Ob("auth-first", "/_internal#"+se.Sel.Name+"-on-group-router", call.Pos(), g.Prov(se.X) == routerProv, "registrations inside the group go to the group's router (the one carrying BasicAuth); found "+g.Prov(se.X))
 	}
-	c.Floor("/_internal group registrations", nreg, 5)
+	c.Floor("/_internal group registrations", nreg, 3)
 	// no /_internal pattern registered elsewhere
 	nout := 0
 	for _, fn := range c.AllFuncs() {
